@@ -127,6 +127,11 @@ pub struct Plan {
     /// non-empty: the same (undamaged) jars are also offered as `LazyJar`s (entry-level seam), one plan per jar
     #[serde(default)]
     pub lazy: Vec<crate::simjar::LazyPlan>,
+    /// non-zero: the same (undamaged) jars are also stored as files of the simulated directory and offered as dukebox
+    /// `FileJar`s. 2: under the same paths another set of jars (the same classes with their super types cut off) was
+    /// used for one call before - what is remembered per path must not outlive the file (missed seeded change C15-11)
+    #[serde(default)]
+    pub file_route: u8,
 }
 
 impl Plan {
@@ -888,6 +893,7 @@ impl Engine for C15 {
             damage: vec![],
             run: _run,
             lazy: vec![],
+            file_route: 0,
         };
         let n = p.njars();
         p.io = vec![IoPlan::plain(); n];
@@ -921,6 +927,12 @@ impl Engine for C15 {
             }
         }
         // ---- the entry-level seam
+        {
+            let mut fr = rng.split("file-route");
+            if fr.chance(10) {
+                p.file_route = 1 + fr.below(2) as u8;
+            }
+        }
         let mut z = rng.split("lazy-jar");
         if z.chance(35) {
             for j in 0..n {
@@ -1248,12 +1260,90 @@ impl Engine for C15 {
                 }
             }
         }
+        // ---------------- the jars as files on the simulated disk, behind dukebox's FileJar
+        if p.file_route != 0 && t0_pairs.is_some() && t0_map.is_some() {
+            use crate::simjar::{build_jar, open_entries, EntryData};
+            st.tier("T1");
+            st.probe("file_route");
+            st.nontrivial = true;
+            let mut dir = crate::simdir::SimDir::new("c15");
+            let names: Vec<String> = (0..n).map(|j| if j == 0 { "main.jar".to_string() } else { format!("lib{}.jar", j - 1) }).collect();
+            if p.file_route == 2 {
+                // earlier content of the same paths: the same classes, every one directly below java/lang/Object
+                for j in 0..n {
+                    let mut entries = open_entries(&healthy[j]).unwrap_or_default();
+                    for (name, d) in entries.iter_mut() {
+                        if let (true, EntryData::File(b)) = (name.ends_with(".class"), &mut *d) {
+                            if let Ok(mut sem) = refclass::parse(b) {
+                                sem.super_class = Some(refclass::JStr::from_str("java/lang/Object"));
+                                sem.interfaces.clear();
+                                if let Ok(e) = refclass::encode(&sem, &refclass::Layout::default()) {
+                                    *b = e.bytes;
+                                }
+                            }
+                        }
+                    }
+                    dir.create(&names[j], &build_jar(&entries, false));
+                }
+                let jars: Vec<dukebox::storage::FileJar> = names.iter().map(|nm| dukebox::storage::FileJar { path: dir.join(nm) }).collect();
+                let _ = no_panic(|| real_pairs(&jars[0]));
+                let _ = no_panic(|| real_add(&jars[0], &jars[1..], &qcal, &qmap));
+                st.probe("file_route.paths_used_before");
+                for j in 0..n {
+                    dir.overwrite(&names[j], &healthy[j]);
+                }
+            } else {
+                for j in 0..n {
+                    dir.create(&names[j], &healthy[j]);
+                }
+            }
+            st.events += 3 * n as u64;
+            st.sched.u64(0xF11E ^ p.file_route as u64);
+            let jars: Vec<dukebox::storage::FileJar> = names.iter().map(|nm| dukebox::storage::FileJar { path: dir.join(nm) }).collect();
+            let pairs = no_panic(|| real_pairs(&jars[0]));
+            let add = no_panic(|| real_add(&jars[0], &jars[1..], &qcal, &qmap));
+            let class = if p.file_route == 2 { "residue-after-heal" } else { "schedule-dependence" };
+            match (&pairs, &t0_pairs) {
+                (Err(pm), _) => out.push(Violation::new("T1", "panic", format!("file.detect:{}", panic_path(pm)), pm.clone())),
+                (Ok(Err(e)), Some(_)) => out.push(Violation::new("T1", class, "file.detect.result", format!("fails on the jar stored as a file: {e:#}"))),
+                (Ok(Ok(a)), Some(b)) => {
+                    let (mut a, mut b) = (a.clone(), b.clone());
+                    a.sort();
+                    b.sort();
+                    if a != b {
+                        out.push(Violation::new("T1", class, "file.detect.pairs", format!("{} pairs vs {} for the in-memory jar", a.len(), b.len())));
+                    }
+                }
+                _ => {}
+            }
+            match (&add, &t0_map) {
+                (Err(pm), _) => out.push(Violation::new("T1", "panic", format!("file.add:{}", panic_path(pm)), pm.clone())),
+                (Ok(Err(e)), Some(_)) => out.push(Violation::new("T1", class, "file.add.result", format!("fails on the jars stored as files: {e:#}"))),
+                (Ok(Ok(Ok(m))), Some(b)) => {
+                    if let Some((path, d)) = b.diff_path(m) {
+                        out.push(Violation::new("T1", class, format!("file.add.{path}"), d));
+                    }
+                }
+                (Ok(Ok(Err(e))), Some(_)) => out.push(Violation::new("T1", "invalid-output", "file.mappings.inconsistent", e.clone())),
+                _ => {}
+            }
+        }
         st.obs = obs;
         out
     }
 
     fn shrink(&self, p: &Plan) -> Vec<Plan> {
         let mut c = vec![];
+        if p.file_route != 0 {
+            let mut q = p.clone();
+            q.file_route = 0;
+            c.push(q);
+            if p.file_route == 2 {
+                let mut q = p.clone();
+                q.file_route = 1;
+                c.push(q);
+            }
+        }
         if !p.lazy.is_empty() {
             let mut q = p.clone();
             q.lazy.clear();
